@@ -125,7 +125,7 @@ impl World {
                                 let mut m = self.m.borrow_mut();
                                 let k = KEY_PIN | m.objs[owner as usize].pins_next;
                                 m.objs[owner as usize].pins_next += 1;
-                                m.objs[owner as usize].edges.insert(k, to);
+                                m.edge_insert(owner, k, to);
                                 k
                             };
                             let p = self.root_ptr(h);
@@ -312,6 +312,17 @@ impl World {
                     self.bulk_clean(h, a[1].clamp(0, 40000) as u32);
                 }
             }
+            O::BulkEdges => {
+                if let (Some(h), Some(t)) = (self.resolve_root(a[0], live_node), self.resolve_root_incl_busy(a[1])) {
+                    self.bulk_edges(h, t, a[2].clamp(0, 20000) as u32);
+                }
+            }
+            O::BulkEdgesDrop => {
+                if let Some(h) = self.resolve_root(a[0], live_node) {
+                    self.bulk_edges_drop(h, a[1].clamp(0, 20000) as u32);
+                }
+            }
+            O::DebugChain => self.debug_chain(a[0].max(1) as u32),
             O::Compare => {
                 if let (Some(i), Some(j)) = (self.resolve_root(a[0], any), self.resolve_root(a[1], any)) {
                     self.compare(i, j);
